@@ -683,7 +683,7 @@ func (cd *cmdDispatcher) cmdInfo(filter map[string]struct{}) (output respValue) 
 
 func (cd *cmdDispatcher) cmdList(aclcat, pattern string) (output respValue) {
 	a := []any{}
-	pat := []rune(pattern)
+	pat := []byte(pattern)
 
 	for name := range cd.active {
 		info := cd.infoTable.table[name]
@@ -700,7 +700,7 @@ func (cd *cmdDispatcher) cmdList(aclcat, pattern string) (output respValue) {
 			}
 		}
 		if pattern != "" {
-			if !redisGlob(pat, []rune(name)) {
+			if !redisGlob(pat, []byte(name)) {
 				continue
 			}
 		}
